@@ -594,7 +594,7 @@ def rule_errno_decisions(prog, fixture=False):
     r = RuleResult("R-C18-8", "where errno *decides* something (`if (errno)`, directly or through a local copy) it was "
                    "cleared earlier in the same function on every path - otherwise a value left behind by unrelated code "
                    "(a diagnostic that could not be written under --verbose, say) turns an ordinary short read into an "
-                   "I/O error and the command fails", floor=0 if fixture else 3)
+                   "I/O error and the command fails", floor=0 if fixture else 1)
     lambdas_of = {}
     for f in prog.functions.values():
         if f.parent_key:
